@@ -396,3 +396,46 @@ Proof.
   intros i p conf ops Hd Hnd. unfold prop_C03, run_C03. rewrite Hd, dec_out_enc, <- pj_init.
   apply grun_spec. rewrite names_init. exact Hnd.
 Qed.
+
+(* ---------------------------------------------------------------- slow start, WlcSmooth with all connection counts 0 *)
+Lemma wlc_bal_ok : bal_ok wlc_bal.
+Proof.
+  split.
+  - intros bs p upd H. unfold wlc_bal in H.
+    destruct (wlc_smooth (map (fun b => (b, 0)) bs)) as [[q l]|] eqn:E; [|discriminate]. inversion H; subst; clear H.
+    destruct (wlc_smooth_some _ _ _ E) as [[c [[Hc [He _]] Hid]] Hpj]. split.
+    + apply in_map_iff in Hc. destruct Hc as [b [Eb Hb]]. subst c. exists b. split; [exact Hb|]. split; [exact He|exact Hid].
+    + rewrite map_map in Hpj. rewrite map_map.
+      rewrite (map_ext (fun x : wb => bcfg (fst x)) pj_b) by (intros [b n]; reflexivity).
+      rewrite Hpj. apply map_ext. intros b. reflexivity.
+  - intros bs. unfold wlc_bal. destruct (wlc_smooth (map (fun b => (b, 0)) bs)) as [[q l]|] eqn:E.
+    + split; [discriminate|]. intros H. exfalso.
+      assert (wlc_smooth (map (fun b => (b, 0)) bs) = None).
+      { apply wlc_smooth_none. clear E. induction bs as [|b r IH]; [reflexivity|]. simpl in *.
+        unfold wb_elig at 1. simpl. destruct (elig b); [discriminate|]. apply IH. exact H. }
+      congruence.
+    + split; [|reflexivity]. intros _. apply wlc_smooth_none in E. clear -E.
+      induction bs as [|b r IH]; [reflexivity|]. simpl in *. unfold wb_elig at 1 in E. simpl in E.
+      destruct (elig b); [discriminate|]. apply IH. exact E.
+Qed.
+Lemma bal_of_ok wlc : bal_ok (bal_of wlc).
+Proof. destruct wlc; [exact wlc_bal_ok|exact smooth_bal_ok]. Qed.
+
+(* ---------------------------------------------------------------- central statement with an executable guard *)
+Definition wf_C03 (i : val) : bool :=
+  match dec_in i with
+  | Some (_, conf, _) => distinct_keys (map (fun s : key * Z * list (Z * Z) => fst (fst s)) conf)
+  | None => false
+  end.
+Theorem central_C03 : forall i, wf_C03 i = true -> kf_C03 i = 0 -> prop_C03 i (run_C03 i) = true.
+Proof.
+  intros i H _. unfold wf_C03 in H. destruct (dec_in i) as [[[p conf] ops]|] eqn:E; [|discriminate].
+  apply (prop_of_model_C03 i p conf ops E). apply distinct_keys_NoDup. exact H.
+Qed.
+Definition sample_C03 : val :=
+  VL [VL [VZ 1; VZ 1; VZ 1];
+      VL [VL [VB [98;106]; VZ 2; VL [VL [VZ 0; VZ 1]; VL [VZ 1; VZ 2]]]; VL [VB [103;122]; VZ 0; VL [VL [VZ 3; VZ 1]]]];
+      VL [VL [VZ 2; VB [98;106]; VZ 0; VZ 3]; VL [VZ 1; VB [98;106]; VZ 1; VZ 0]; VL [VZ 0; VZ 0; VZ 77; VB [1;2;3;4]];
+          VL [VZ 0; VZ 2; VZ 78; VB [1;2;3;5]]]].
+Lemma sample_C03_wf : wf_C03 sample_C03 = true.
+Proof. reflexivity. Qed.
